@@ -109,6 +109,9 @@ def run(tier: str, rep: Report):
                     files.append(f)
                     jobs[v].append(("encode.corpus_to_file", {"files": ch, "path": f, "optimize": opt, "normalized": False}))
             srcs = [{"id": f"ex:{n}", "src": s} for n, s in df.REPO_EXAMPLES.items()]
+            srcs += [{"id": "future:barry", "src": "from __future__ import barry_as_FLUFL\nx = 1\n"},
+                     {"id": "future:all", "src": "from __future__ import division, print_function, unicode_literals, absolute_import, "
+                                                 "with_statement, generator_stop, nested_scopes, generators, annotations\nx = 1\n"}]
             srcs += [{"id": f"sn:{i}:o{o}", "src": s, "mode": m, "optimize": o} for i, (m, s) in enumerate(df.SNIPPETS) for o in (0, 1, 2)]
             k += 1
             f = str(wd / f"src-{v}-{k}.ndjson")
@@ -161,7 +164,10 @@ def run(tier: str, rep: Report):
                     if e["id"] in details:
                         details[e["id"]] = e.get("rt") or {"exc": e.get("exc")}
                         if e.get("kind") == "fromcode_fail":
-                            details[e["id"]] = {"from_code": e["exc_type"]}
+                            barry = 18 if e["ver"] == "37" else 22
+                            only_barry = e["exc_type"] == "ValueError" and barry in e.get("flags", []) \
+                                and "barry_as_FLUFL" in e.get("exc", "") and e["exc"].count("'") == 2
+                            details[e["id"]] = {"from_code": "future-flag-barry_as_FLUFL" if only_barry else e["exc_type"]}
                         elif e["out"]["exc"]:
                             details[e["id"]] = {"to_code": e["out"]["exc_type"]}
 
